@@ -163,7 +163,8 @@ Fixpoint paths (n : node) (v : val) {struct n} : list tagged :=
              | e :: r => pre (nat_to_string i) (paths en e) ++ go (S i) r
              end) 0%nat es ++
           [(["-1"], "index-1"); ([nat_to_string len], "indexlen"); ([nat_to_string (S len)], "indexlen1");
-           ([huge_index], "indexhuge"); (["x!"], "unparsable"); (["-1"; "q"], "index-1"); ([nat_to_string len; "q"], "indexlen")] ++
+           ([huge_index], "indexhuge"); (["x!"], "unparsable"); (["-1"; "q"], "index-1"); ([nat_to_string len; "q"], "indexlen");
+           ([""], "emptyseg"); (["08"], "unparsable"); (["00"], "octal"); (["0o1"], "octal"); (["+0"], "signed"); (["0_0"], "underscore")] ++
           (match es with [] => [] | e :: _ => pre "0x0" (take 2 (paths en e)) end)
         | _, _ => []
         end
